@@ -256,8 +256,16 @@ class Run:
     def check_delay_pending(self, why):
         if self.rig.comm_state == "COMMUNICATING" or self.link_gen() is None or not self.enabled:
             return
-        timers = vtime.pending(kind="_on_wait_comm_delay_timeout", owner=self.h.communication_state)
-        t3 = vtime.pending(kind="_on_wait_cra_timeout", owner=self.h.communication_state)
+        def look():
+            return (vtime.pending(kind="_on_wait_comm_delay_timeout", owner=self.h.communication_state),
+                    vtime.pending(kind="_on_wait_cra_timeout", owner=self.h.communication_state))
+        timers, t3 = look()
+        if not timers:
+            # suspicious: before calling the delay absent give a woken dispatcher thread wall-clock time to run (loaded machine)
+            self.rig.confirm_absent(lambda: bool(look()[0]) or self.rig.comm_state == "COMMUNICATING")
+            if self.rig.comm_state == "COMMUNICATING":
+                return
+            timers, t3 = look()
         if not timers and not t3:
             self.violation(f"M2:no-retry-scheduled-after-{why}-attempt", pending=[t.kind for t in vtime.pending()])
         elif why == "refused" and not timers:
